@@ -66,17 +66,79 @@ def parse_interventions(interventions_dict: DictIv) -> Arr2:
 LG = "Obj('sempler.lganm.LGANM', p=Int, W=Arr2, means=Arr1, variances=Arr1)"
 
 
-@contract("sempler.lganm.LGANM.sample", cases={'population': [True], 'do_interventions': ['dict', 'none'], 'shift_interventions': ['dict', 'none'],
-                                               'noise_interventions': ['dict', 'none'], 'random_state': ['none']})
-def lganm_sample_population(self: Obj('sempler.lganm.LGANM', p=Int, W=Arr2, means=Arr1, variances=Arr1)) -> Obj('sempler.normal_distribution.NormalDistribution', p=Int, mean=Arr1, covariance=Arr2):
-    requires(lganm_ok(self), keys_ok(do_interventions, self.p), keys_ok(shift_interventions, self.p), keys_ok(noise_interventions, self.p))
+@contract("sempler.lganm.LGANM.sample", cases={'population': [True, False], 'do_interventions': ['dict', 'none'], 'shift_interventions': ['dict', 'none'],
+                                               'noise_interventions': ['dict', 'none'], 'random_state': ['none', 'int']},
+          quick_cases=[{'population': True, 'do_interventions': 'dict', 'shift_interventions': 'dict', 'noise_interventions': 'dict', 'random_state': 'none'},
+                       {'population': True, 'do_interventions': 'none', 'shift_interventions': 'none', 'noise_interventions': 'none', 'random_state': 'none'},
+                       {'population': True, 'do_interventions': 'dict', 'shift_interventions': 'none', 'noise_interventions': 'none', 'random_state': 'none'},
+                       {'population': True, 'do_interventions': 'none', 'shift_interventions': 'dict', 'noise_interventions': 'dict', 'random_state': 'none'},
+                       {'population': False, 'do_interventions': 'dict', 'shift_interventions': 'none', 'noise_interventions': 'dict', 'random_state': 'int'},
+                       {'population': False, 'do_interventions': 'none', 'shift_interventions': 'none', 'noise_interventions': 'none', 'random_state': 'none'}])
+def lganm_sample(self: Obj('sempler.lganm.LGANM', p=Int, W=Arr2, means=Arr1, variances=Arr1), n: Int):
+    requires(lganm_ok(self), n >= 0, keys_ok(do_interventions, self.p), keys_ok(shift_interventions, self.p), keys_ok(noise_interventions, self.p))
     let(Wp=intervened_W(self, do_interventions),
         mu=intervened_means(self, do_interventions, noise_interventions, shift_interventions),
         var=intervened_variances(self, do_interventions, noise_interventions, shift_interventions))
     let(Mm=identity(self.p) - transpose(Wp))
-    # the returned law solves the intervened structural equations:  (I - W'^T) mean = mu'   and   (I - W'^T) cov (I - W'^T)^T = diag(var')
-    ensures(result.p == self.p,
-            same_array(matmul(Mm, result.mean), mu),
-            same_array(matmul(matmul(Mm, result.covariance), transpose(Mm)), diag_of(var)))
+    # population setting: the returned law solves the intervened structural equations
+    #   (I - W'^T) mean = mu'   and   (I - W'^T) cov (I - W'^T)^T = diag(var')
+    ensures(implies(population, result.p == self.p and same_array(matmul(Mm, result.mean), mu)
+                    and same_array(matmul(matmul(Mm, result.covariance), transpose(Mm)), diag_of(var))))
+    # finite samples (C04): numpy's multivariate normal applied to exactly that population law (witness: the local `distribution`)
+    ensures_exists(implies(not population,
+                           same_array(matmul(Mm, distribution.mean), mu)
+                           and same_array(matmul(matmul(Mm, distribution.covariance), transpose(Mm)), diag_of(var))
+                           and same_array(result, g_mvn(global_state() if random_state is None else global_seeded(random_state), distribution.mean, distribution.covariance, n)[0])
+                           and result.shape[0] == n and result.shape[1] == self.p))
+    witness(distribution=population_law(self, do_interventions, noise_interventions, shift_interventions))
     hint(acyclic_if_ranked(W, lambda u: rank(self.W, u)), unitri_nonsingular(W), at='before:inv')
+    # ghost assertions: the working copies hold exactly the intervened parameters (the override logic), then the algebra
+    lemma(same_array(W, Wp), same_array(means, mu), same_array(variances, var))
+    lemma(same_matrix(identity(self.p) - transpose(W), Mm))
+    lemma(same_matrix(matmul(Mm, A), identity(self.p)), same_matrix(matmul(transpose(A), transpose(Mm)), identity(self.p)))
+    lemma(same_matrix(matmul(Mm, mean), means))
+    lemma(same_matrix(matmul(Mm, covariance), matmul(diag_of(variances), transpose(A))),
+          same_matrix(matmul(matmul(Mm, covariance), transpose(Mm)), diag_of(variances)),
+          same_matrix(diag_of(variances), diag_of(var)))
+    reproducible(when=not population)
     fresh(result)
+
+
+@spec
+def population_law(m, do, noise, shift):
+    """concrete witness only (numpy): the Gaussian solving the intervened equations"""
+    return nd_of(solve(identity(m.p) - transpose(intervened_W(m, do)), intervened_means(m, do, noise, shift)),
+                 matmul(matmul(inverse(identity(m.p) - transpose(intervened_W(m, do))), diag_of(intervened_variances(m, do, noise, shift))),
+                        transpose(inverse(identity(m.p) - transpose(intervened_W(m, do))))))
+
+
+@spec
+def param_bad(v, p):
+    return not ((isinstance(v, tuple) and len(v) == 2) or (is_ndarray(v) and len(v) == p))
+
+
+@spec
+def in_draw_range(x, lo, hi):
+    return (lo <= x and x < hi) if lo < hi else ((x == lo) if lo == hi else (hi < x and x <= lo))
+
+
+@contract("sempler.lganm.LGANM.__init__", cases={'means': ['rpair', 'arr1'], 'variances': ['rpair', 'arr1'], 'random_state': ['none', 'int']})
+def lganm_init(self: Obj('sempler.lganm.LGANM'), W: Arr2):
+    requires(square(W))
+    raises(ValueError, when=not acyclic(W) or param_bad(variances, len(W)) or param_bad(means, len(W)))
+    modifies(self)
+    establishes(p=len(W), W=array_of(len(W), len(W), lambda i, j: W[i, j]))
+    # explicit arrays are copied; (low, high) ranges are drawn inside the range, one value per variable
+    ensures(len(self.variances) == len(W), len(self.means) == len(W))
+    ensures(implies(is_ndarray(variances), same_array(self.variances, variances)), implies(is_ndarray(means), same_array(self.means, means)))
+    ensures(implies(isinstance(variances, tuple), all(in_draw_range(self.variances[i], variances[0], variances[1]) for i in range(len(W)))),
+            implies(isinstance(means, tuple), all(in_draw_range(self.means[i], means[0], means[1]) for i in range(len(W)))))
+    # with a seed the draws are the first (variances) and next (means) uniform draws of default_rng(seed)
+    ensures(implies(random_state is not None and isinstance(variances, tuple),
+                    same_array(self.variances, rng_uniform(rng_state(random_state), variances[0], variances[1], (len(W),))[0])))
+    ensures(implies(random_state is not None and isinstance(means, tuple) and isinstance(variances, tuple),
+                    same_array(self.means, rng_uniform(rng_uniform(rng_state(random_state), variances[0], variances[1], (len(W),))[1], means[0], means[1], (len(W),))[0])))
+    ensures(implies(random_state is not None and isinstance(means, tuple) and is_ndarray(variances),
+                    same_array(self.means, rng_uniform(rng_state(random_state), means[0], means[1], (len(W),))[0])))
+    reproducible(self.variances, self.means, private=True, when=isinstance(variances, tuple) or isinstance(means, tuple))
+    fresh(self.W, self.variances, self.means)
